@@ -152,7 +152,8 @@ func (c limCfg) build(reg *RecRegistry) *limInst {
 }
 
 // countingLimit forwards to a real algorithm and counts the samples it is given (a harness double:
-// lets a check see when the windowed wrapper closes a window).
+// lets a check see when the windowed wrapper closes a window). It is part of the fingerprinted state
+// (the algorithm hangs below it); only the counter is left out.
 type countingLimit struct {
 	core.Limit
 	Calls int `fp:"-"`
@@ -162,8 +163,6 @@ func (c *countingLimit) OnSample(start, rtt int64, inFlight int, drop bool) {
 	c.Calls++
 	c.Limit.OnSample(start, rtt, inFlight, drop)
 }
-
-func (*countingLimit) FingerprintSkip() {}
 
 // floor/ceiling of the reported estimate per the property statement.
 func (c limCfg) floor() int {
